@@ -28,6 +28,10 @@ first_missed = {
  'C18-d': 'Sampler.sample (pandas frame) was outside the first version; obligations sampler.sample_frame / sample_inconsistent_keys (symbolic parameter values and records, 16 params shapes with differently ordered keys) added afterwards',
  'C11-d': 'LinearDict JSON was compared with tolerance 1e-9 (equal to the default atol of LinearDict.clean, which hid the loss); exact json.lin.* obligations with symbolic coefficients over a box containing every small magnitude added afterwards',
  'C05-d': 'no operation in the first menu carried both a measurement key and a control key; keys2.* obligations (CircuitOperations with both kinds of keys, every strategy, symbolic positions, key-conflict base circuits) added afterwards',
+ 'C20-d': 'the first version did not account for CancelQuantumJob RPCs; cancellation accounting laws and stream.cancelpoint.* (racing cancel / stop() at a symbolic position of the schedule) added afterwards',
+ 'C12-d': 'cirq.If bodies that are CircuitOperations with their own controls under an enclosing key remap were not in the first menu; ifblock.* obligations added afterwards (they also found the sequential key replacement defect of multi-key conditions, repaired in /repo faa95c0)',
+ 'C16-c': 'qubit ids were only exercised with three fixed qubits; msgs.qubit_id.* (coordinates over negative / zero / multi-digit values, name templates) added afterwards',
+ 'C10-c': 'parameterized tags under one-step (non-recursive) resolution were not in the first version; resolve.tagged_once.* added afterwards',
  'C19-b': 'the concrete KAK fall-back menu only had gates with interaction (x,0,0); matrix-only gates with generic coefficients added afterwards',
 }
 still = {
